@@ -57,40 +57,42 @@ Record sobs := mkObs { o_res : sres; o_steps : N; o_nlog : N }.
 
 Definition cop_of (o : sop) : cop := match o with SCancel r => CCancel r | SUncancel => CUncancel end.
 
+(* `lr` is the reason given when the limit is reached: "too many steps" by default, or the
+   reason used by a client OnMaxSteps hook that cancels the thread.  *)
 (* one loop-head visit when the thread has already counted `steps` and the
    history of Cancel/Uncancel calls is `ops`; limit 0 on a fresh thread means none *)
-Definition visit (limit : N) (ops : list cop) (steps : N) : list cop * option reason :=
-  let ops' := if limit <=? steps + 1 then ops ++ [CCancel too_many_steps] else ops in
+Definition visit (lr : reason) (limit : N) (ops : list cop) (steps : N) : list cop * option reason :=
+  let ops' := if limit <=? steps + 1 then ops ++ [CCancel lr] else ops in
   (ops', first_reason ops').
 
 (* returns (result, thread step counter afterwards, built-ins entered, history) *)
-Fixpoint spec_exec (limit : N) (prog : list sinstr) (ops : list cop) (steps nlog : N)
+Fixpoint spec_exec (lr : reason) (limit : N) (prog : list sinstr) (ops : list cop) (steps nlog : N)
   : sres * N * N * list cop :=
   match prog with
-  | [] => let (ops', c) := visit limit ops steps in
+  | [] => let (ops', c) := visit lr limit ops steps in
           match c with Some r => (RCancelled r, steps + 1, nlog, ops') | None => (ROk, steps + 1, nlog, ops') end
-  | SFail :: _ => let (ops', c) := visit limit ops steps in
+  | SFail :: _ => let (ops', c) := visit lr limit ops steps in
           match c with Some r => (RCancelled r, steps + 1, nlog, ops') | None => (RErr, steps + 1, nlog, ops') end
   | SBuiltin bops :: rest =>
-          let (ops', c) := visit limit ops steps in
+          let (ops', c) := visit lr limit ops steps in
           match c with
           | Some r => (RCancelled r, steps + 1, nlog, ops')
-          | None => spec_exec limit rest (ops' ++ map cop_of bops) (steps + 1) (nlog + 1)
+          | None => spec_exec lr limit rest (ops' ++ map cop_of bops) (steps + 1) (nlog + 1)
           end
   | SPlain n :: rest =>
-          if n =? 0 then spec_exec limit rest ops steps nlog else
+          if n =? 0 then spec_exec lr limit rest ops steps nlog else
           match first_reason ops with
-          | Some r => (RCancelled r, steps + 1, nlog, if limit <=? steps + 1 then ops ++ [CCancel too_many_steps] else ops)
+          | Some r => (RCancelled r, steps + 1, nlog, if limit <=? steps + 1 then ops ++ [CCancel lr] else ops)
           | None =>
               if limit <=? steps + n                          (* the limit falls inside this run of instructions *)
               then let at_ := N.max limit (steps + 1) in
-                   (RCancelled too_many_steps, at_, nlog, ops ++ [CCancel too_many_steps])
-              else spec_exec limit rest ops (steps + n) nlog
+                   (RCancelled lr, at_, nlog, ops ++ [CCancel lr])
+              else spec_exec lr limit rest ops (steps + n) nlog
           end
   | SLoop :: _ =>
           match first_reason ops with
-          | Some r => (RCancelled r, steps + 1, nlog, if limit <=? steps + 1 then ops ++ [CCancel too_many_steps] else ops)
-          | None => if limit <? two64 - 1 then (RCancelled too_many_steps, N.max limit (steps + 1), nlog, ops ++ [CCancel too_many_steps])
+          | Some r => (RCancelled r, steps + 1, nlog, if limit <=? steps + 1 then ops ++ [CCancel lr] else ops)
+          | None => if limit <? two64 - 1 then (RCancelled lr, N.max limit (steps + 1), nlog, ops ++ [CCancel lr])
                     else (RDiverge, steps, nlog, ops)
           end
   end.
@@ -102,17 +104,17 @@ Fixpoint spec_exec (limit : N) (prog : list sinstr) (ops : list cop) (steps nlog
    limit that every step count has reached. *)
 Inductive lev := LCancel (r : reason) | LUncancel | LSetMax (n : N) | LRead | LExec (prog : list sinstr).
 
-Fixpoint spec_life (limit : N) (started : bool) (evs : list lev) (ops : list cop) (steps : N) : list sobs :=
+Fixpoint spec_life (lr : reason) (limit : N) (started : bool) (evs : list lev) (ops : list cop) (steps : N) : list sobs :=
   match evs with
   | [] => []
-  | LCancel r :: rest => spec_life limit started rest (ops ++ [CCancel r]) steps
-  | LUncancel :: rest => spec_life limit started rest (ops ++ [CUncancel]) steps
-  | LSetMax n :: rest => spec_life n started rest ops steps
-  | LRead :: rest => mkObs RRead steps 0 :: spec_life limit started rest ops steps
+  | LCancel r :: rest => spec_life lr limit started rest (ops ++ [CCancel r]) steps
+  | LUncancel :: rest => spec_life lr limit started rest (ops ++ [CUncancel]) steps
+  | LSetMax n :: rest => spec_life lr n started rest ops steps
+  | LRead :: rest => mkObs RRead steps 0 :: spec_life lr limit started rest ops steps
   | LExec prog :: rest =>
       let limit' := if negb started && (limit =? 0) then max_uint64 else limit in
-      match spec_exec limit' prog ops steps 0 with
-      | (r, steps', nlog, ops') => mkObs r steps' nlog :: spec_life limit' true rest ops' steps'
+      match spec_exec lr limit' prog ops steps 0 with
+      | (r, steps', nlog, ops') => mkObs r steps' nlog :: spec_life lr limit' true rest ops' steps'
       end
   end.
 
